@@ -238,5 +238,40 @@ def emitKnown : Value → Option Bytes
   | .int b => some (emitInt b)
   | _ => none
 
+/-! ### scripts: several calls on several Sets whose results all stay alive
+
+Every result of the Go API (a Set, a dropped slice, the caller's slice, a merged list, a looked-up
+value) is a *value* here; `results` records, per call, what it returned. -/
+
+inductive SeqOp where
+  | set (kvs : List KV)                                   -- s := NewSet(kvs...)
+  | newset (kvs : List KV) (filter : Option (KV → Bool))  -- NewSetWithFiltered
+  | filter (i : Nat) (re : Option (KV → Bool))            -- sets[i].Filter(re)
+  | merge (i j : Nat)                                     -- NewMergeIterator(&sets[i], &sets[j])
+  | value (i : Nat) (k : Bytes)                           -- sets[i].Value(k)
+
+/-- a looked-up value as a result: `[]` (absent) or one item with the empty key -/
+def valRes : Option Value → List KV
+  | none => []
+  | some v => [⟨[], v⟩]
+
+structure SeqState where
+  sets : List (List KV) := []             -- the Sets created so far (`set`, `newset`, `filter` append one each)
+  results : List (List (List KV)) := []   -- per call, the results it returned
+
+def seqStep (st : SeqState) : SeqOp → SeqState
+  | .set kvs => ⟨st.sets ++ [newSet kvs], st.results ++ [[newSet kvs]]⟩
+  | .newset kvs f =>
+    let r := newSetWithFiltered kvs f
+    ⟨st.sets ++ [r.set], st.results ++ [[r.set, r.dropped, r.after]]⟩
+  | .filter i re =>
+    let s := st.sets.getD i []
+    let r := setFilter s re
+    ⟨st.sets ++ [r.1], st.results ++ [[r.1, r.2, s]]⟩
+  | .merge i j => ⟨st.sets, st.results ++ [[mergeIter (st.sets.getD i []) (st.sets.getD j [])]]⟩
+  | .value i k => ⟨st.sets, st.results ++ [[valRes (value (st.sets.getD i []) k)]]⟩
+
+def runSeq (ops : List SeqOp) : SeqState := ops.foldl seqStep {}
+
 end C05
 end Otel
